@@ -81,9 +81,11 @@ def events (s : State) (l : RawLine) : Except String (List Ev) :=
     else if obj == "worker#1.concurrency" then
       if op == "load" then
         -- reserve() loads the limit twice: before the CAS (with the loaded cur pending: ldConcD) and again after
-        -- taking the slot (the re-check next to the status re-check; the model lets a dispatcher give its slot
-        -- back at any time, so only the value is compared)
-        (if fn == "worker.reserve" && (s.lc g).isSome then .ok [.ldConcD g (natOf res)] else .ok [.ldConcAny g (natOf res)])
+        -- taking the slot and passing the status re-check (dispatcher phase `checked`: the limit re-check ldConcR,
+        -- which decides between keeping the slot and having to give it back)
+        (if fn == "worker.reserve" && (s.lc g).isSome then .ok [.ldConcD g (natOf res)]
+         else if fn == "worker.reserve" && s.ph g == .checked then .ok [.ldConcR g (natOf res)]
+         else .ok [.ldConcAny g (natOf res)])
       else if op == "store" then .ok [.stConc g (natOf arg)]
       else .error s!"unmodelled operation {op} on concurrency in {fn}"
     else if obj == "worker#1.lifecycle" then
@@ -647,6 +649,10 @@ def events (x : St) (l : RawLine) : St × List Ev :=
     else if op == "make" then ({ x with chans := (obj, (natOf arg, 0, 0)) :: x.chans.filter (·.1 != obj) }, [])
     else if op == "lock" then
       let (x, w) := intern x (obj ++ "/w"); let (x, r) := intern x (obj ++ "/r"); (x, [.acq g w, .acq g r])
+    else if op == "trylock" then
+      (if res == "true" then let (x, w) := intern x (obj ++ "/w"); let (x, r) := intern x (obj ++ "/r"); (x, [.acq g w, .acq g r]) else (x, []))
+    else if op == "tryrlock" then
+      (if res == "true" then let (x, w) := intern x (obj ++ "/w"); (x, [.acq g w]) else (x, []))
     else if op == "unlock" then let (x, w) := intern x (obj ++ "/w"); (x, [.rel g w])
     else if op == "rlock" then let (x, w) := intern x (obj ++ "/w"); (x, [.acq g w])
     else if op == "runlock" then let (x, r) := intern x (obj ++ "/r"); (x, [.rel g r])
